@@ -146,6 +146,11 @@ fn judge_merge<T: Dom>(out: &mut Vec<(String, Value)>, a: &St<T>, b: &St<T>, lo:
     Some(merged)
 }
 
+/// CPU time of the calling thread in seconds (evidence only; never influences exploration).
+fn thread_cpu_s() -> f64 {
+    std::fs::read_to_string("/proc/thread-self/schedstat").ok().and_then(|t| t.split_whitespace().next().and_then(|n| n.parse::<f64>().ok())).map(|ns| ns / 1e9).unwrap_or(0.0)
+}
+
 struct SearchResult<T: Dom> {
     /// distinct regions in BFS order with the history that first reached them
     regions: Vec<(St<T>, usize, Vec<Act>)>,
@@ -183,6 +188,7 @@ fn search<T: Dom>(ctx: &Ctx, rep: &Reporter, phase: &str, cfg: &Cfg, inits: &[(S
             (checker.unique_state_count(), checker.state_count(), checker.max_depth(), disc, t0.elapsed().as_secs_f64())
         });
         let t1 = std::time::Instant::now();
+        let c1 = thread_cpu_s();
         // ---- engine 2: mcx::bfs (sequential, exact level order, key = canonical cell lists)
         let mut seen_regions: BTreeSet<Vec<(i64, u8, u8)>> = BTreeSet::new();
         let mut local_outcomes: BTreeSet<u64> = BTreeSet::new();
@@ -223,7 +229,7 @@ fn search<T: Dom>(ctx: &Ctx, rep: &Reporter, phase: &str, cfg: &Cfg, inits: &[(S
             ctx.cap_hit(&format!("{dom} {phase}: mcx::bfs state cap"));
         }
         ctx.add_nontrivial(nontrivial);
-        mcx_out = Some((stats, seen_regions.len(), t1.elapsed().as_secs_f64()));
+        mcx_out = Some((stats, seen_regions.len(), (t1.elapsed().as_secs_f64(), thread_cpu_s() - c1)));
         sr_out = h.join().unwrap_or_else(|_| mcx::machinery("stateright thread panicked"));
     });
     let (stats, distinct_regions, mcx_wall) = mcx_out.unwrap();
@@ -251,7 +257,7 @@ fn search<T: Dom>(ctx: &Ctx, rep: &Reporter, phase: &str, cfg: &Cfg, inits: &[(S
         "initial_states": init_states.len(),
         "depth_bound": cfg.max_depth,
         "stateright": {"unique_state_count": sr_unique, "state_count": sr_generated, "transitions": sr_transitions, "max_depth": sr_depth, "threads": sr_threads, "wall_s": sr_wall, "properties_with_discovery": disc.keys().collect::<Vec<_>>()},
-        "mcx_bfs": {"unique_states": stats.states, "transitions": stats.transitions, "max_depth": stats.max_depth, "per_depth": stats.per_depth, "wall_s": mcx_wall, "invariants_violated": mcx_failed.iter().collect::<Vec<_>>()},
+        "mcx_bfs": {"unique_states": stats.states, "transitions": stats.transitions, "max_depth": stats.max_depth, "per_depth": stats.per_depth, "wall_s": mcx_wall.0, "cpu_s": mcx_wall.1, "invariants_violated": mcx_failed.iter().collect::<Vec<_>>()},
         "distinct_regions": distinct_regions,
         "note": "a state is (real region, reference store, steps used); every action is enabled in every state, so the count is the sum over k of the regions reachable in exactly k steps",
     });
@@ -296,46 +302,72 @@ fn run_domain<T: Dom>(ctx: &Ctx, rep: &Reporter, plan: &Plan, threads: usize) ->
     let n = regs.len() as u64;
     let (lo, hi) = (plan.merge_cfg.lo, plan.merge_cfg.hi);
     let stable = AtomicU64::new(0);
-    let results: Mutex<BTreeMap<Vec<(i64, u8, u8)>, (u64, u64)>> = Mutex::new(BTreeMap::new());
-    let pair_job = |acc: &mut BTreeMap<Vec<(i64, u8, u8)>, (u64, u64)>, i: u64| {
+    // per worker: distinct merge results with their smallest (i,j), and per violation key the first
+    // (= smallest, every worker sees increasing i) REPORT_PER_KEY pairs; merged and sorted afterwards so
+    // that what is reported does not depend on thread scheduling
+    type Results = BTreeMap<Vec<(i64, u8, u8)>, (u64, u64)>;
+    type Viols = BTreeMap<String, (u64, Vec<((u64, u64), Value)>)>;
+    let merged_acc: Mutex<(Results, Viols)> = Mutex::new((BTreeMap::new(), BTreeMap::new()));
+    let pair_job = |acc: &mut (Results, Viols), i: u64| {
         let (sa, _, ha) = &regs[i as usize];
+        let mut found = Vec::new();
         for j in 0..n {
             let (sb, _, hb) = &regs[j as usize];
-            let case = || Case::Merge { dom: dom.to_string(), a: ha.clone(), b: hb.clone(), lo, hi };
-            let merged = judge_merge::<T>(rep, sa, sb, &case, lo, hi, &stable);
+            found.clear();
+            let merged = judge_merge::<T>(&mut found, sa, sb, lo, hi, &stable);
+            for (key, detail) in found.drain(..) {
+                let e = acc.1.entry(key).or_insert((0, Vec::new()));
+                e.0 += 1;
+                if e.1.len() < REPORT_PER_KEY as usize {
+                    e.1.push(((i, j), detail));
+                }
+            }
             if ha.len() > plan.seed_pair_depth || hb.len() > plan.seed_pair_depth {
                 continue;
             }
             if let Some(merged) = merged {
                 let key = real_cells(&merged.region);
-                let e = acc.entry(key).or_insert((i, j));
+                let e = acc.0.entry(key).or_insert((i, j));
                 if (i, j) < *e {
                     *e = (i, j);
                 }
             }
         }
     };
-    // par_fold uses mcx::num_threads() workers; the three domains run their pair phase one after the other
     par_fold(
         n,
         1,
-        BTreeMap::new,
+        || (BTreeMap::new(), BTreeMap::new()),
         pair_job,
-        |acc| {
-            let mut r = results.lock().unwrap();
-            for (k, v) in acc {
-                let e = r.entry(k).or_insert(v);
+        |acc: (Results, Viols)| {
+            let mut r = merged_acc.lock().unwrap();
+            for (k, v) in acc.0 {
+                let e = r.0.entry(k).or_insert(v);
                 if v < *e {
                     *e = v;
                 }
             }
+            for (k, (count, list)) in acc.1 {
+                let e = r.1.entry(k).or_insert((0, Vec::new()));
+                e.0 += count;
+                e.1.extend(list);
+            }
         },
     );
+    let (results, viols) = merged_acc.into_inner().unwrap();
+    for (key, (count, mut list)) in viols {
+        list.sort_by(|a, b| a.0.cmp(&b.0));
+        list.truncate(REPORT_PER_KEY as usize);
+        rep.suppressed.fetch_add(count - list.len() as u64, Ordering::Relaxed);
+        for ((i, j), detail) in list {
+            let case = || Case::Merge { dom: dom.to_string(), a: regs[i as usize].2.clone(), b: regs[j as usize].2.clone(), lo, hi };
+            rep.violation(key.clone(), case, detail);
+        }
+    }
     ctx.add_states(n * n);
     ctx.add_transitions(2 * n * n);
     ctx.stat("merge_pairs", n * n);
     ctx.stat("merge_results_stable_under_second_merge", stable.load(Ordering::Relaxed));
-    let results = results.into_inner().unwrap();
     // ---- phase C: re-seed the search with every distinct merge result
     let mut seeds: Vec<(St<T>, Init)> = Vec::new();
     let mut new_regions = 0u64;
@@ -368,8 +400,11 @@ fn run_case_dom<T: Dom>(ctx: &Ctx, case: &Case) {
     match case {
         Case::Merge { a, b, lo, hi, .. } => {
             let (sa, sb) = (replay_history::<T>(a), replay_history::<T>(b));
-            let c = || case.clone();
-            judge_merge::<T>(&rep, &sa, &sb, &c, *lo, *hi, &stable);
+            let mut found = Vec::new();
+            judge_merge::<T>(&mut found, &sa, &sb, *lo, *hi, &stable);
+            for (key, detail) in found {
+                rep.violation(key, || case.clone(), detail);
+            }
             ctx.add_transitions(2);
         }
         Case::History { init, actions, lo, hi, .. } => {
@@ -377,8 +412,12 @@ fn run_case_dom<T: Dom>(ctx: &Ctx, case: &Case) {
                 Init::Empty => St::<T>::empty(),
                 Init::Merge { a, b } => {
                     let (sa, sb) = (replay_history::<T>(a), replay_history::<T>(b));
-                    let c = || Case::Merge { dom: T::NAME.to_string(), a: a.clone(), b: b.clone(), lo: *lo, hi: *hi };
-                    match judge_merge::<T>(&rep, &sa, &sb, &c, *lo, *hi, &stable) {
+                    let mut found = Vec::new();
+                    let merged = judge_merge::<T>(&mut found, &sa, &sb, *lo, *hi, &stable);
+                    for (key, detail) in found {
+                        rep.violation(key, || Case::Merge { dom: T::NAME.to_string(), a: a.clone(), b: b.clone(), lo: *lo, hi: *hi }, detail);
+                    }
+                    match merged {
                         Some(m) => m,
                         None => return,
                     }
